@@ -31,6 +31,7 @@ _re_states = re.compile(r"^(\d+) states generated, (\d+) distinct states found",
 _re_depth = re.compile(r"depth of the complete state graph search is (\d+)")
 _re_inv = re.compile(r"Error: Invariant (\S+) is violated")
 _re_prop = re.compile(r"Error: (?:Temporal properties were violated|Action property (\S+) is violated)")
+_re_tprop = re.compile(r"Error: Temporal property (\S+) was violated")
 _re_post = re.compile(r"Error: Postcondition (\S+)")
 _re_cov = re.compile(r"^<(\w+) line \d+, col \d+ to line \d+, col \d+ of module \w+>: (\d+):(\d+)", re.M)
 
@@ -74,10 +75,11 @@ def run_tlc(spec_files, module, cfg, *, workers=8, timeout_s=600, simulate=None,
         if m: res.depth = int(m.group(1))
         res.violations += _re_inv.findall(out)
         for m in _re_prop.finditer(out): res.violations.append(m.group(1) or "temporal")
+        res.violations += _re_tprop.findall(out)
         res.violations += ["postcondition:" + x for x in _re_post.findall(out)]
         if "Deadlock reached" in out: res.violations.append("deadlock")
         for line in out.splitlines():
-            if line.startswith("Error:") and not any(k in line for k in ("is violated", "Postcondition", "behavior up to this point", "Deadlock reached")):
+            if line.startswith("Error:") and not any(k in line for k in ("is violated", "was violated", "were violated", "constitutes a counter-example", "Postcondition", "behavior up to this point", "Deadlock reached")):
                 res.errors.append(line.strip())
             if CASE_PREFIX in line and line.startswith('"'):
                 try:
